@@ -381,6 +381,19 @@ def run_one(ck, prog):
                 if lav is not None:
                     diff_terms = {t: c for t, c in lav[0].items() if le[0].get(t) != c}
                     ok = lav[1] - le[1] == 8 and len(diff_terms) == 1 and list(diff_terms.values()) == [8] and all(t in lav[0] for t in le[0])
+                if not ok and lav is not None and lav[1] == 8 and len(lav[0]) == 1 and list(lav[0].values()) == [1] and list(lav[0])[0].startswith("v:"):
+                    # the walk as a moving pointer: the cursor starts at envp, every other definition moves it one word on, and the aux vector
+                    # starts one word after the place where it stopped
+                    cur = None
+                    for z in walk_deep(ctx.args(av[0])[0], ctx.prov, limit=60):
+                        if z[0] == "var" and "v:" + str(z[2]) == list(lav[0])[0]:
+                            cur = z
+                            break
+                    if cur is not None:
+                        defs = [lin.of(d) for d in ctx.prov.expand(cur)]
+                        starts = [d for d in defs if d == le]
+                        steps = [d for d in defs if d is not None and d == ({list(lav[0])[0]: 1}, 8)]
+                        ok = len(defs) >= 2 and len(starts) == 1 and len(starts) + len(steps) == len(defs)
                 ck.ob("C07.4", "auxv=envp+8*(n_env+1)", ok, fn=RESOLVE, detail=f"auxv must start one word after envp's NULL entry: envp + 8*n_env + 8; normal forms auxv={lav} envp={le}")
                 # the walk stops at the null entry
                 zero_tests = [f for sb in ctx.cfg.live_blocks() if ctx.cfg.term(sb)["k"] == "switch" for e in ctx.cfg.succ[sb] for f in ctx.edge_facts(e) if f[0] == "cmp" and f[1] == "Eq" and 0 in (fold(f[2]), fold(f[3]))]
